@@ -791,8 +791,8 @@ def run_generated(spec):
 
 
 SUBCHECKS = [
-    SubCheck('generated', _gen_spec, run_generated, quick=400, thorough=6000, quick_time=200, thorough_time=3000),
-    SubCheck('history', lambda: SPEC, run_case, quick=320, thorough=6000, quick_time=200, thorough_time=3000, enumerate=canonical_specs),
+    SubCheck('generated', _gen_spec, run_generated, quick=400, thorough=3000, quick_time=200, thorough_time=3000),
+    SubCheck('history', lambda: SPEC, run_case, quick=320, thorough=3000, quick_time=200, thorough_time=3000, enumerate=canonical_specs),
 ]
 
 
